@@ -271,3 +271,15 @@ contract('parso.tree.NodeOrLeaf.search_ancestor', params={'self': 'ref:NodeOrLea
          loops={0: dict(invariant=['implies(node is not None, depth(node) < depth(self) and root(node) is root(self))'],
                         decreases='ite(node is None, 0, depth(node) + 1)')},
          theories=['tree'], props=['C11'])
+
+# PythonLeaf skips one zero-width indentation error leaf in front of it
+ZW = "(p.type == 'error_leaf' and p.token_type in ('INDENT', 'DEDENT', 'ERROR_DEDENT'))"
+contract('parso.python.tree.PythonLeaf.get_start_pos_of_prefix', params={'self': 'ref:PythonLeaf'}, returns='pos',
+         ensures=['implies(lo(self) == lo(root(self)), result == (self.line - breaks(self.prefix), 0))',
+                  "implies(lo(self) != lo(root(self)), exists(lambda p: p is not None and is_leaf(p) and hi(p) == lo(self) - 1 and "
+                  "root(p) is root(self) and ("
+                  "(not " + ZW + " and result == epos(p)) or "
+                  "(" + ZW + " and lo(p) == lo(root(self)) and result == (self.line - breaks(self.prefix), 0)) or "
+                  "(" + ZW + " and lo(p) != lo(root(self)) and exists(lambda q: q is not None and is_leaf(q) and hi(q) == lo(p) - 1 "
+                  "and root(q) is root(self) and result == epos(q), kinds=dict(q='ref:NodeOrLeaf')))), kinds=dict(p='ref:NodeOrLeaf')))"],
+         **POS)
